@@ -295,6 +295,56 @@ def positions_rule(ck, F, S, prefix='C12'):
                 ck.check(R_pos, pname + '/' + k2, acc.get(k2) == w, f'{fid}: {k2}() is `{acc.get(k2)}`, expected `{w}`', loc=f['loc'], fn=fid)
 
 
+    # any other function of the library that enters members into a parameter list / enumeration / base list (a bulk version, a
+    # convenience overload): whatever it appends gets the size before that very append as its position
+    known = {c[1] for c in cases}
+    from symex import Sym as _Sym
+    Sb = _Sym(F, opaque=contracts.default_opaque(F), max_depth=64)
+    Sb.apply_functors = True          # loops over data: one arbitrary iteration
+    owners = ('ipr::impl::Parameter_list', 'ipr::impl::Enum', 'ipr::impl::Class', 'ipr::impl::Mapping', 'ipr::impl::Lambda')
+    for g in sorted(F.fn.values(), key=lambda g: g['id']):
+        if g['id'] in known or not g.get('body') or g.get('parent') not in owners or g.get('ctor'):
+            continue
+        if not any(n.get('k') == 'call' and (n.get('callee') or {}).get('name') == 'push_back'
+                   and ((n['callee'].get('parent') or '').startswith('ipr::impl::homogeneous_scope<')) for n in walk(g['body'])):
+            continue
+        try:
+            outs = [o for o in Sb.run(g['id']) if o[1] == 'return']
+        except Unsupported as e:
+            raise AnalysisBroken(f'{g["id"]}: {e}')
+        bad = []
+        for st, _k, _v in outs:
+            grown = {}
+            for e in st.effects:
+                if e[0] != 'emplace':
+                    continue
+                el, cont = e[3], e[2]
+                nth = grown.get(cont, 0)
+                grown[cont] = nth + 1
+                pos_fo = [fo for fo in F.final_overrider_by_name(st.heap[el[1]].cls, 'position')] if el[1] in st.heap else []
+                if not pos_fo and el[1] in st.heap:
+                    # the element wraps the declaration (a singleton overload set holding it by value)
+                    for fv in st.heap[el[1]].fields.values():
+                        if isinstance(fv, tuple) and fv[:1] == ('obj',) and fv[1] in st.heap and F.final_overrider_by_name(st.heap[fv[1]].cls, 'position'):
+                            el = fv
+                            pos_fo = F.final_overrider_by_name(st.heap[fv[1]].cls, 'position')
+                            break
+                if not pos_fo:
+                    continue
+                pv = Sb.run(pos_fo[0], this=el, args=[], state=st.fork())[0][2]
+                while isinstance(pv, tuple) and pv and pv[0] == 'castto':
+                    pv = pv[2]
+                inner = pv[2] if isinstance(pv, tuple) and pv[:1] == ('after',) else pv
+                is_size = isinstance(inner, tuple) and inner[:1] in (('call',), ('vcall',)) and contracts.fn_simple(inner[1]) == 'size' \
+                    and (inner[2] == cont or contracts.render(cont, st, {}).startswith(contracts.render(inner[2], st, {})))
+                growth_seen = pv[1] if isinstance(pv, tuple) and pv[:1] == ('after',) else 0
+                if not is_size or growth_seen != nth:
+                    bad.append(f'an element appended to {contracts.render(cont, st, {})[:50]} gets position `{contracts.render(pv, st, {})[:60]}`')
+        sid = '::'.join(contracts.fn_qname(g['id']).split('::')[-2:]) + '/' + str(len(g['params']))
+        ck.check(R_pos, sid + '/position', not bad, f'{g["id"]}: ' + '; '.join(sorted(set(bad))[:2]) + ', not the size of the sequence just before that '
+                 'append: positions collide with, or skip, those of the members already there', loc=g['loc'], fn=g['id'])
+
+
 def check_owner(ck, F, S, R_owner, st, root, cls, ifc, f):
     names = {root[1]: 'R'}
     regs = regions_in(st, root)
